@@ -1,4 +1,5 @@
 import Model.WinArgv
+import Model.Sh
 /-!
   `modeldriver`: one request per input line, one answer per output line.
   The harness runs the implementation on the same requests and diffs the answers.
@@ -53,9 +54,69 @@ def handleWin (args : List String) : String :=
     | none => "err"
     | some t => "ok " ++ Hex.encodeW 4 t
 
+def decodeUtf8 (tok : String) : Option (List Char) :=
+  match Hex.decodeW 2 tok with
+  | none => none
+  | some bs => (String.fromUTF8? (ByteArray.mk (bs.map (·.toUInt8)).toArray)).map String.toList
+
+def encodeUtf8 (l : List Char) : String :=
+  Hex.encodeW 2 ((String.ofList l).toUTF8.toList.map (·.toNat))
+
+/-- split a token list at "/" -/
+def splitStages : List String → List (List String)
+  | [] => [[]]
+  | t :: ts =>
+    match splitStages ts with
+    | [] => [[t]]
+    | st :: rest => if t = "/" then [] :: st :: rest else (t :: st) :: rest
+
+def showCmds (cs : List (List (List Char))) : String :=
+  " / ".intercalate (cs.map fun c => " ".intercalate (c.map encodeUtf8))
+
+/-- `sh <arg>+` → `ok <text>`; `shp <arg>+ / <arg>+ …` → `ok <text>`;
+    `words <text>` → what the shell model makes of the text in argument position;
+    `cmds <dir> <text>` → the commands the shell model would run -/
+def handleSh (kind : String) (args : List String) : String :=
+  match kind with
+  | "sh" =>
+    match allSome (args.map decodeUtf8) with
+    | some (c :: r) => "ok " ++ encodeUtf8 (Sh.toCmdline (c :: r))
+    | _ => "bad-request"
+  | "shp" =>
+    match allSome ((splitStages args).map fun st => allSome (st.map decodeUtf8)) with
+    | some stages =>
+      if stages.length < 2 || stages.any (·.isEmpty) then "bad-request"
+      else "ok " ++ encodeUtf8 (Sh.pipelineText stages)
+    | none => "bad-request"
+  | "words" =>
+    match args with
+    | [t] =>
+      match decodeUtf8 t with
+      | none => "bad-request"
+      | some text =>
+        match Sh.parse ('x' :: ' ' :: text) with
+        | some [_ :: ws] => if ws.isEmpty then "some" else "some " ++ " ".intercalate (ws.map encodeUtf8)
+        | _ => "none"
+    | _ => "bad-request"
+  | "cmds" =>
+    match args with
+    | [_, t] =>
+      match decodeUtf8 t with
+      | none => "bad-request"
+      | some text =>
+        match Sh.parse text with
+        | some cs => "some " ++ showCmds cs
+        | none => "none"
+    | _ => "bad-request"
+  | _ => "bad-request"
+
 def handle (line : String) : String :=
   match tokens line with
   | "win" :: args => handleWin args
+  | "sh" :: args => handleSh "sh" args
+  | "shp" :: args => handleSh "shp" args
+  | "words" :: args => handleSh "words" args
+  | "cmds" :: args => handleSh "cmds" args
   | _ => "bad-request"
 
 partial def loop (h : IO.FS.Stream) (out : IO.FS.Stream) : IO Unit := do
